@@ -570,6 +570,7 @@ class IH5Group(IH5InnerNode):
     def create_group(self, name: str) -> IH5Group:
         self._guard_open()
         self._guard_read_only()
+        self._guard_key(name)
 
         path = self._abs_path(name)
         nodes = self._node_seq(path)
